@@ -373,6 +373,57 @@ pub fn run(ctx: &mut Ctx, which: Which) {
             judge_c02(ctx, &cfg, &si, &x);
         }
     });
+    if which.c01 {
+        // "once the child has closed its streams ... the call returns": the child closes stdout and stderr and then
+        // lingers for 8 s; the exchange must be over while it is still alive (ordering of events, not a timeout)
+        let nl = ctx.n(96, 1500);
+        ctx.family("closes-streams-then-lingers", nl, |ctx, rng, _i| {
+            let seed = rng.next() >> 1;
+            let entry = *rng.pick(&[Entry::PipelineCommunicate, Entry::PipelineCommunicate, Entry::CommunicateBytes, Entry::Start, Entry::ExecCommunicate]);
+            let piped_in = rng.chance(400);
+            let input_len = if piped_in { rng.range(0, 100_000) } else { 0 };
+            let script = format!("w1:{}:{},w2:{}:{},{}c1,c2,s8000,x0", rng.range(0, 100_000), comm::chunk(rng), rng.range(0, 100_000), comm::chunk(rng), if piped_in { "R," } else { "" });
+            let cfg = Xcfg {
+                seed,
+                script: script.clone(),
+                input: if piped_in { Some(comm::input_for(seed, input_len as usize)) } else { None },
+                out_piped: true,
+                err_piped: true,
+                err_merge: false,
+                cap: 65536,
+                entry,
+                chain: vec![],
+                short_rw: 0,
+                delay_us: 0,
+                vclock: None,
+                max_polls_after_deadline: -1,
+                ops_budget: 1,
+                stop_when_done: true,
+                kill_after: true,
+                eintr_permille: 0,
+            };
+            let si = comm::ScriptInfo { script, reads_all: piped_in, family: "closes-streams-then-lingers", ..Default::default() };
+            let x = comm::exchange(ctx, &cfg);
+            ctx.count("exchanges", 1);
+            ctx.distinct_h(crate::common::fnv(cfg.script.as_bytes()) ^ entry as u64);
+            judge_c01(ctx, &cfg, &si, &x);
+            if x.cert.is_some() || x.panic.is_some() || x.hard_timeout || x.budget_hit || x.launch_error.is_some() {
+                return;
+            }
+            // the scripted child is the first process forked
+            if let Some((pid, st)) = x.at_return.first() {
+                ctx.count("lingering_children_checked_at_return", 1);
+                let closed_both = x.report.iter().any(|l| l.starts_with("c 2"));
+                if closed_both && matches!(st, None | Some('Z')) {
+                    ctx.violation(
+                        &format!("C01/returned-only-after-child-exit/{:?}", entry),
+                        "the child closed its stdout and stderr and then stayed alive for 8 s, but the exchange returned only after it had exited: something kept the parent from seeing end-of-file",
+                        describe(&cfg, &si).set("child_pid", J::i(*pid as i64)).set("child_state_at_return", J::s(&format!("{:?}", st))).set("child_report", J::arr_s(&x.report)),
+                    );
+                }
+            }
+        });
+    }
     if which.c02 {
         // input delivered exactly once also when the exchange is interrupted by time limits and resumed
         let nr = ctx.n(200, 6000);
